@@ -142,7 +142,7 @@ CLAIMED = {
             "an interrupt handled before the worker has reset the flag (eval still queued / just dequeued) is, by design, wiped like an idle one: the model makes this explicit",
             "DESIGN.md §3.5, §6 C31"),
     "C33": (MC, "TLC enumerates Syntax.tla tree families and prints seeded programs (P / S operators); the parser must rebuild the same tree",
-            "every tree of ExprTrees(d) / StmtTrees(d) (d=1 quick, 2 thorough) and generated programs printed by the specification must parse without errors to exactly the printed tree; Print injective on the family",
+            "every tree of ExprTrees(1) / StmtTrees(d) (d=1 quick; 2 thorough, the real parser on a seeded sample of 20 000 of them), operator chains and generated programs printed by the specification must parse without errors to exactly the printed tree; Print injective on the family",
             "the families cover the core grammar; structs/dicts/imports/tests are exercised elsewhere",
             "DESIGN.md §6 C33"),
 }
